@@ -35,6 +35,9 @@ def judge(ctx, items, res, driver, case):
     cls = 'refused' if c.status == 'refused' else 'raw:' + c.etype
     if c.status == 'refused':
         cls += ':' + progs.refusal_class(c).replace(' ', '-')
+    consts = {i['name'] for i in items if i['k'] == 'const' and 'name' in i}
+    if it is not None and consts & set(L.refs(it)):
+        cls += ':const-target'          # the operand names a CONSTANT (an absolute address / value), not a label
     if any(i['k'] == 'align' for i in items):
         cls += ':with-align'
     key = '%s:%s:%s:%s' % (PROP, progs.head(it) if it else 'program', progs.spec_class(it) if it else '-', cls)
